@@ -107,23 +107,39 @@ def parse(text, wanted):
     return res
 
 
-def playback(root, repo, harness, log):
-    """concrete playback of a failing harness: generate the unit test in a scratch copy and run it natively"""
+def playback(root, repo, harness, log, kdir=None):
+    """concrete playback of a failing harness: Kani prints a unit test per failed check (and per satisfied cover
+    property); the tests for FAILED checks are inserted into a scratch copy of the harness crate (inside the
+    harness module - `inplace` mode cannot be used because the harnesses are macro-generated) and run natively
+    in the dev and release profiles"""
     scratch = f"/tmp/verif-kani-playback-{os.getpid()}"
     try:
-        shutil.copytree(os.path.join(root, "kani"), scratch, ignore=shutil.ignore_patterns("target"))
+        shutil.copytree(kdir or os.path.join(root, "kani"), scratch, ignore=shutil.ignore_patterns("target"))
         e = _env()
-        p = subprocess.run(["cargo", "kani", "--harness", harness, "-Z", "concrete-playback", "--concrete-playback=inplace", "--output-format", "terse"], cwd=scratch, env=e, stdout=subprocess.PIPE, stderr=subprocess.STDOUT, text=True, timeout=3600)
-        src = open(os.path.join(scratch, "src", "lib.rs")).read()
-        tests = re.findall(r"#\[test\]\s*fn (kani_concrete_playback_\w+)\(\)\s*\{.*?\n    \}", src, re.S)
-        gen = re.findall(r"(#\[test\]\s*fn kani_concrete_playback_\w+\(\)\s*\{.*?\n    \})", src, re.S)
-        if not tests:
+        p = subprocess.run(["cargo", "kani", "--harness", harness, "-Z", "concrete-playback", "--concrete-playback=print", "--output-format", "terse"], cwd=scratch, env=e, stdout=subprocess.PIPE, stderr=subprocess.STDOUT, text=True, timeout=3600)
+        blocks = re.findall(r"Concrete playback unit test for `[^`]*`:\n```\n(.*?)\n```", p.stdout, re.S)
+        failing = []
+        for b in blocks:
+            kind = re.search(r"/// Check for `(\w+)`", b)
+            name = re.search(r"fn (kani_concrete_playback_\w+)\(\)", b)
+            if name and kind and kind.group(1) != "cover":
+                failing.append((b, name.group(1)))
+        if not failing:
             return None, p.stdout[-2000:]
-        out = {}
-        for profile in ([], ["--release"]):
-            q = subprocess.run(["cargo", "kani", "playback", "-Z", "concrete-playback"] + profile + ["--", tests[0]], cwd=scratch, env=e, stdout=subprocess.PIPE, stderr=subprocess.STDOUT, text=True, timeout=1800)
-            out["release" if profile else "dev"] = ("test result: FAILED" in q.stdout or "panicked" in q.stdout)
-        return out, "\n".join(gen)[:6000]
+        libp = os.path.join(scratch, "src", "lib.rs")
+        src = open(libp).read().rstrip()
+        assert src.endswith("}")
+        src = src[:-1] + "\n".join(b for b, _ in failing[:4]) + "\n}\n"
+        open(libp, "w").write(src)
+        out = {"dev": False, "release": False, "tests": [n for _, n in failing[:4]]}
+        for _, name in failing[:4]:
+            for profile in ([], ["--release"]):
+                q = subprocess.run(["cargo", "kani", "playback", "-Z", "concrete-playback"] + profile + ["--", name], cwd=scratch, env=e, stdout=subprocess.PIPE, stderr=subprocess.STDOUT, text=True, timeout=1800)
+                if "test result: FAILED" in q.stdout or "panicked at" in q.stdout:
+                    out["release" if profile else "dev"] = True
+                elif "could not compile" in q.stdout:
+                    out["error"] = q.stdout[-1500:]
+        return out, "\n\n".join(b for b, _ in failing)[:6000]
     except Exception as ex:
         log(f"playback failed: {ex}")
         return None, str(ex)
